@@ -12,6 +12,7 @@ structure St where
   load : LoadSt := {}
   norm : NormSt := {}
   up : UpSt := {}
+  watch : WatchSt := {}
 
 /-- note-name engine (C11) -/
 def noteLine (toks : List String) : Option String :=
@@ -37,6 +38,9 @@ def St.line (s : St) (line : String) : St × Option String :=
     else if t.startsWith "tpl." ∨ t.startsWith "fs." ∨ t = "upkeep" ∨ t = "crashstates" then
       let (p, o) := s.up.line toks
       ({ s with up := p }, o)
+    else if t.startsWith "w." then
+      let (p, o) := s.watch.line toks
+      ({ s with watch := p }, o)
     else if t = "h" ∨ t = "h.reset" ∨ t = "norm" then
       let (p, o) := s.norm.line toks
       ({ s with norm := p }, o)
